@@ -351,6 +351,101 @@ def _running_offsets(body):
     return rec(body)
 
 
+def _lockstep_cursors(n):
+    """`k = E; ...; for(j = 0; j < n; j++, k++) { .. a[k] .. }` (a second induction variable advanced in lock step with the
+    loop counter; E loop-invariant and untouched between the initialisation and the loop, k used nowhere else): k is E + j -
+    rewritten so, the extra increment and the initialisation dropped."""
+    if not isinstance(n, dict):
+        return n
+    if n.get('inner'):
+        n = dict(n)
+        n['inner'] = [_lockstep_cursors(c) for c in n['inner']]
+    if n.get('kind') != 'CompoundStmt':
+        return n
+    kids = list(n.get('inner', []))
+
+    def init_of(st):
+        s0 = strip(st) if isinstance(st, dict) else st
+        if isinstance(s0, dict) and s0.get('kind') == 'BinaryOperator' and s0.get('opcode') == '=' and strip(s0['inner'][0]).get('kind') == 'DeclRefExpr':
+            return unparen(S(s0['inner'][0])), s0['inner'][1], 'assign'
+        if isinstance(s0, dict) and s0.get('kind') == 'DeclStmt' and len(s0.get('inner', [])) == 1 and s0['inner'][0].get('kind') == 'VarDecl' \
+                and s0['inner'][0].get('inner'):
+            return s0['inner'][0]['name'], s0['inner'][0]['inner'][0], 'decl'
+        return None
+
+    def uses(x, name):
+        return any(y.get('kind') == 'DeclRefExpr' and (y.get('referencedDecl') or {}).get('name') == name for y in _walk_nodes(x))
+    changed = True
+    while changed:
+        changed = False
+        for fi, nxt in enumerate(kids):
+            if not (isinstance(nxt, dict) and nxt.get('kind') == 'ForStmt' and len(nxt.get('inner', [])) == 5):
+                continue
+            finit, _, cond, inc, body = nxt['inner']
+            inc0 = strip(inc) if inc else {}
+            if not (isinstance(inc0, dict) and inc0.get('kind') == 'BinaryOperator' and inc0.get('opcode') == ','):
+                continue
+            parts = [strip(x) for x in inc0['inner']]
+            i0 = finit or {}
+            jv = None
+            if i0.get('kind') == 'BinaryOperator' and i0.get('opcode') == '=' and unparen(S(i0['inner'][1])) == '0':
+                jv = unparen(S(i0['inner'][0]))
+            elif i0.get('kind') == 'DeclStmt' and i0['inner'][0].get('inner') and unparen(S(i0['inner'][0]['inner'][0])) == '0':
+                jv = i0['inner'][0]['name']
+            if not jv or len(parts) != 2:
+                continue
+            jinc = [p_ for p_ in parts if _is_incr_of(p_, jv)]
+            others = [p_ for p_ in parts if not _is_incr_of(p_, jv)]
+            if len(jinc) != 1 or len(others) != 1:
+                continue
+            kname = None
+            for cand in {y['referencedDecl']['name'] for y in _walk_nodes(others[0]) if y.get('kind') == 'DeclRefExpr'}:
+                if _is_incr_of(others[0], cand):
+                    kname = cand
+            if not kname or kname == jv:
+                continue
+            # the latest initialisation of k before the loop, in this block
+            ii = None
+            for b in range(fi - 1, -1, -1):
+                io = init_of(kids[b])
+                if io and io[0] == kname:
+                    ii = b
+                    break
+                if uses(kids[b], kname):
+                    break
+            if ii is None:
+                continue
+            _, init_expr, how = init_of(kids[ii])
+            inv_names = {x['referencedDecl']['name'] for x in _walk_nodes(init_expr) if x.get('kind') == 'DeclRefExpr'}
+            between = kids[ii + 1:fi]
+            if any(uses(b_, kname) for b_ in between) or any(_assigns_var(b_, nm) for b_ in between for nm in inv_names | {kname}):
+                continue
+            if any(uses(r_, kname) for r_ in kids[fi + 1:]) or _assigns_var(body, kname) or any(_assigns_var(body, nm) for nm in inv_names) \
+                    or jv in inv_names or kname in inv_names:
+                continue
+            LONG = {'qualType': 'long'}
+            jref = [x for x in _walk_nodes(jinc[0]) if x.get('kind') == 'DeclRefExpr'][0]
+
+            def rw(x):
+                if not isinstance(x, dict):
+                    return x
+                if x.get('kind') == 'DeclRefExpr' and (x.get('referencedDecl') or {}).get('name') == kname:
+                    return dict(kind='ParenExpr', type=LONG, inner=[dict(kind='BinaryOperator', opcode='+', type=LONG,
+                                                                         inner=[_deep(init_expr), _deep(jref)])])
+                if x.get('inner'):
+                    x = dict(x)
+                    x['inner'] = [rw(c) for c in x['inner']]
+                return x
+            nf = dict(nxt)
+            nf['inner'] = [finit, _, rw(cond) if cond else cond, jinc[0], rw(body)]
+            kids = kids[:ii] + kids[ii + 1:fi] + [nf] + kids[fi + 1:]
+            changed = True
+            break
+    n = dict(n)
+    n['inner'] = kids
+    return n
+
+
 def _while_to_for(n):
     """`v = lo; while(v < hi) { body; v += 1; }`  ->  `for(v = lo; v < hi; v += 1) { body }` when the body neither assigns v
     elsewhere nor contains `continue` (which would skip the increment of the while form)."""
@@ -1252,6 +1347,7 @@ class CFunc:
         self._cur = self.line
         self.named = {}       # local -> init node, for locals declared with an initialiser and never re-assigned
         self.body = _while_to_for(self.body)
+        self.body = _lockstep_cursors(self.body)
         self.body = _running_offsets(self.body)
         self.body = _cursor_pointers(self.body)
         self._collect_named(self.body)
